@@ -558,6 +558,37 @@ func (rw *regWorld) apply(op string, judge bool) (viol []string, digest string, 
 		}
 		m.conn[p] = true
 		m.ents[p] = m.allEnts()
+	case "late":
+		// a subscription or binding request of peer p that is still being processed by the connection's reader
+		// after the connection was removed: nothing may be registered for the removed device and nothing written
+		p := f[2]
+		pe := w.Peers[p]
+		if m.conn[p] || pe == nil {
+			break
+		}
+		effect = true
+		var d model.DatagramType
+		if f[1] == "bind" {
+			d = pe.BindCall(cliAddr(p, f[3], true), srvAddr(f[4], true), model.FeatureTypeTypeLoadControl)
+		} else {
+			d = pe.SubscribeCall(cliAddr(p, f[3], true), srvAddr(f[4], true), model.FeatureTypeTypeLoadControl)
+		}
+		pe.Deliver(d)
+		rt.WaitIdle()
+		// the registries are per manager, not per connected device: look at all entries
+		for _, srv := range rw.servers {
+			fa := *srvAddr(srv, true)
+			for _, e := range w.L.SubscriptionManager().SubscriptionsOnFeature(fa) {
+				if e.ClientFeature.Device().Ski() == p {
+					addV("a subscription was registered for a device whose connection had been removed | op=" + op)
+				}
+			}
+			for _, e := range w.L.BindingManager().BindingsOnFeature(fa) {
+				if e.ClientFeature.Device().Ski() == p {
+					addV("a binding was registered for a device whose connection had been removed | op=" + op)
+				}
+			}
+		}
 	case "sub", "bind", "unsub", "unbind":
 		p, c, s := f[1], f[2], f[3]
 		pe := w.Peers[p]
